@@ -4,7 +4,8 @@ Model of `twisted.logger._buffer.LimitedHistoryLogObserver` (C57).
 Transcribes (src/twisted/logger/_buffer.py): `__init__` (`deque(maxlen=size)`, `size=None` is
 unbounded, a negative size makes `deque` raise `ValueError`), `__call__` (`deque.append`: when
 the deque is full the oldest element is dropped; with `maxlen=0` nothing is kept) and
-`replayTo` (iterate oldest first).  Events are opaque: any type `α`.
+`replayTo` (iterate oldest first; over a copy of the buffer, so that the observer replayed to may itself
+log to this history observer — `replayLoop`/`replayTo`).  Events are opaque: any type `α`.
 -/
 namespace Twisted.Log.Buffer
 
@@ -30,5 +31,17 @@ def Hist.observe {α : Type} (h : Hist α) (e : α) : Hist α :=
 
 /-- `replayTo(otherObserver)`: the events handed to `otherObserver`, in order -/
 def Hist.replay {α : Type} (h : Hist α) : List α := h.buf
+
+/-- the loop of `replayTo` over the copied buffer `snap`: the target observer, on receiving the `i`-th
+    replayed event, feeds the events `feed i` into this very history observer (re-entrancy) -/
+def Hist.replayLoop {α : Type} (feed : Nat → List α) : List α → Nat → Hist α → List α × Hist α
+  | [], _, h => ([], h)
+  | ev :: rest, i, h =>
+    let r := Hist.replayLoop feed rest (i + 1) ((feed i).foldl Hist.observe h)
+    (ev :: r.1, r.2)
+
+/-- `replayTo(otherObserver)` with such a target: the events handed to it in order, and the state after -/
+def Hist.replayTo {α : Type} (h : Hist α) (feed : Nat → List α) : List α × Hist α :=
+  Hist.replayLoop feed h.buf 0 h
 
 end Twisted.Log.Buffer
